@@ -147,7 +147,7 @@ ENUMS = {'Option': ['None', 'Some'], 'Result': ['Ok', 'Err'], 'ControlFlow': ['C
          'AssertKind': ['Eq', 'Ne', 'Match'], 'Cow': ['Borrowed', 'Owned'],
          # log crate: Level has explicit discriminants starting at 1 (placeholder keeps index == discriminant)
          'Level': ['__unused0', 'Error', 'Warn', 'Info', 'Debug', 'Trace'], 'LevelFilter': ['Off', 'Error', 'Warn', 'Info', 'Debug', 'Trace']}
-STRUCTS = {}
+STRUCTS = {'Range': [['start', 'end']], 'RangeTo': [['end']], 'RangeFrom': [['start']], 'RangeToInclusive': [['end']]}
 UNIT_STRUCTS = set()
 VARIANT_KIND = {}      # (enum, variant) -> 'unit' | 'tuple' | 'struct'
 GENERICS = {}          # fn name -> list of its own type-parameter names (None when ambiguous)
@@ -819,7 +819,7 @@ class Machine:
         nm = segs[-1]
         if nm in UNIT_STRUCTS and not args:
             return Adt(nm, 0, [])
-        if nm in STRUCTS or nm in ('Rc', 'Arc', 'Box', 'String', 'Vec', 'PhantomData'):
+        if nm in STRUCTS or nm in ('Rc', 'Arc', 'Box', 'String', 'Vec', 'PhantomData', 'Range', 'RangeTo', 'RangeFrom', 'RangeInclusive', 'RangeFull'):
             return Adt(nm, 0, args)
         if len(segs) >= 2 and segs[-2][:1].isupper() and segs[-1][:1].isupper():
             raise Unsupported('unknown enum for aggregate ' + path)
